@@ -21,16 +21,32 @@ import (
 // the real responders.
 
 type bodyReader struct {
-	data   []byte
-	pos    int
-	closed bool
-	failAt int // -1 never
+	data    []byte
+	pos     int
+	closed  bool
+	failAt  int // -1 never
+	failErr error  // nil: errOriginAbort
+	onFail  func() // runs when the transfer breaks (e.g. the requesting client's context is cancelled)
+}
+
+// abortSpec: the transfer of this answer's body breaks after `at` bytes with `err`
+type abortSpec struct {
+	at   int
+	err  error
+	hook func()
 }
 
 var errOriginAbort = errors.New("origin transfer aborted")
 
 func (b *bodyReader) Read(p []byte) (int, error) {
 	if b.failAt >= 0 && b.pos >= b.failAt {
+		if b.onFail != nil {
+			b.onFail()
+			b.onFail = nil
+		}
+		if b.failErr != nil {
+			return 0, b.failErr
+		}
 		return 0, errOriginAbort
 	}
 	if b.pos >= len(b.data) {
@@ -50,6 +66,7 @@ type originResp struct {
 	header http.Header
 	body   []byte
 	err    error
+	abort  *abortSpec
 }
 
 type seenReq struct {
@@ -94,6 +111,9 @@ func (o *origin) do(req *http.Request) (*http.Response, error) {
 		return nil, r.err
 	}
 	br := &bodyReader{data: r.body, failAt: -1}
+	if r.abort != nil {
+		br.failAt, br.failErr, br.onFail = r.abort.at, r.abort.err, r.abort.hook
+	}
 	o.bodies = append(o.bodies, br)
 	return &http.Response{StatusCode: r.status, Status: "status", Proto: "HTTP/1.1", ProtoMajor: 1, ProtoMinor: 1,
 		Header: r.header.Clone(), Body: br, ContentLength: int64(len(r.body)), Request: req}, nil
